@@ -403,7 +403,10 @@ func (i *Interp) prepareCall(fr *frame, call *ssa.CallCommon) (fn value, args []
 			panic(targetPanic{v: iface{t: types.Typ[types.String], v: TStr("runtime error: invalid memory address or nil pointer dereference (nil interface method call " + call.Method.Name() + ")")}})
 		}
 		if c, ok := recv.v.(*ctxObj); ok {
-			return i.ctxMethod(c, call.Method.Name()), nil
+			for _, a := range call.Args {
+				args = append(args, fr.get(a))
+			}
+			return i.ctxMethod(c, call.Method.Name()), args
 		}
 		if recv.t == errType {
 			st := errFields(recv)
